@@ -26,7 +26,7 @@ BUGS = ("toponly", "keepnotes", "nocommit", "writeonly")
 
 def model_stage(ctx):
     q = ctx.quick()
-    for cfg in (("MC_q1.cfg", "MC_qn.cfg") if q else ("MC_q1.cfg", "MC_qn.cfg", "MC_t1.cfg", "MC_t2.cfg", "MC_t3.cfg")):
+    for cfg in (("MC_q1.cfg", "MC_qn.cfg") if q else ("MC_q1.cfg", "MC_qn.cfg", "MC_t1.cfg", "MC_t2.cfg", "MC_t3.cfg", "MC_pending.cfg")):
         ctx.tlc_mc("exec", "ExecImpl.tla", cfg, timeout=1500, coverage=False)
     # non-vacuity: each named deviation of the wrap / unload logic must be caught by the same invariants
     for b in BUGS + ("gen4bug",):
@@ -40,16 +40,6 @@ def model_stage(ctx):
             if "Invariant" not in (e.res or {}).get("out", ""):
                 raise
             ctx.extra["model_selftests"] = ctx.extra.get("model_selftests", 0) + 1
-        ctx.states, ctx.transitions = st, tr
-    if not q:
-        # information: the corner left out of the verdict really is a disagreement at model level
-        st, tr = ctx.states, ctx.transitions
-        try:
-            ctx.tlc_mc("exec", "ExecImpl.tla", "MC_pending.cfg", timeout=600)
-            ctx.extra["pending_corner_model"] = "no disagreement found"
-        except vlib.ModelError:
-            ctx.extra["pending_corner_model"] = ("with calls allowed while an exception is pending the layered machine drops a callee "
-                                                 "that returned (commit = no pending exception) while nested transactions keep it")
         ctx.states, ctx.transitions = st, tr
 
 
@@ -104,15 +94,32 @@ def classify(ev, f, what):
     return sig
 
 
+def replay_cases(ctx):
+    """--replay: only the tree of a recorded violation (plus one small exhaustive run so that the evidence is complete)."""
+    d = json.load(open(ctx.replay))
+    det = d.get("detail") or {}
+    tree = (det.get("event") or {}).get("tree")
+    if tree is None:
+        tree = ((det.get("history") or [{}])[0]).get("tree")
+    if tree is None:
+        raise vlib.Inconclusive("replay file carries no tree (block-level signature): re-run the tier with the recorded seed %s" % d.get("seed"))
+    ctx.tlc_mc("exec", "ExecImpl.tla", "MC_qn.cfg", timeout=600)
+    return [{"tree": tree, "src": "replay"}]
+
+
 def run(ctx):
     q = ctx.quick()
-    model_stage(ctx)
-    cases = generation_stage(ctx)
+    if ctx.replay:
+        cases = replay_cases(ctx)
+    else:
+        model_stage(ctx)
+        cases = generation_stage(ctx)
     ind = os.path.join(ctx.work, "in-c04")
     os.makedirs(ind)
     json.dump(cases, open(os.path.join(ind, "cases.json"), "w"))
     # real code
-    res = ctx.go_driver("c04exec", "TestDriver", env={"VERIF_IN": ind, "VERIF_RANDOM": 1500 if q else 40000}, timeout=3000)
+    res = ctx.go_driver("c04exec", "TestDriver", env={"VERIF_IN": ind, "VERIF_RANDOM": 0 if ctx.replay else (1500 if q else 40000),
+                                                      "VERIF_TRACE_EVERY": 1 if ctx.replay else (3 if q else 8)}, timeout=3000)
     ctx.absorb(res)
     trace = os.path.join(res["_out"], "trace.ndjson")
     events = vlib.read_ndjson(trace)
@@ -128,19 +135,23 @@ def run(ctx):
             ctx.violation(classify(ev, f, w), {
                 "what": "abstract predicate %s false on the real chain" % w, "event": ev,
                 "expected": (f.get("ctx") or {}).get("expected")})
-    steps_stage(ctx, res)
-    if res.get("stats", {}).get("aborted") and not ctx.violations:
-        raise vlib.Inconclusive("the driver had to stop (%s) and nothing recorded before is a violation" % res["stats"]["aborted"])
+    aborted = res.get("stats", {}).get("aborted")
+    if aborted and not ctx.violations:
+        raise vlib.Inconclusive("the driver had to stop (%s) and nothing recorded before is a violation" % aborted)
+    if not aborted:
+        steps_stage(ctx, res, selftests=not ctx.replay)
     ctx.assumptions += [
         "AppExecResult.Events of a FAULTed transaction (diagnostic application log, asserted by the repository's own tests to "
         "retain the notifications emitted before the fault) is not judged; judged instead: nothing is delivered to "
         "notification subscribers and no NEP-17 transfer is logged for a faulted transaction",
         "calls made while an exception is pending (from a FINALLY block entered by an exception) are outside the judged "
-        "language: the VM (like the C# reference) does not commit a callee that returns while an exception is pending",
+        "language: the VM (like the C# reference) does not commit a callee that returns while an exception is pending, which "
+        "the statement's 'everything done after the failed call is kept' does not cover; at model level (MC_pending.cfg) the "
+        "layered machine still equals the always-snapshot machine there; such trees are counted, not judged",
         "what a CATCH can catch (THROW, VM range errors) and what it cannot (ABORT, syscalls refused for call flags, exceptions "
         "leaving onNEP17Payment) was established on the unchanged tree and is part of the tree language",
     ]
-    if not ctx.violations:
+    if not ctx.violations and not ctx.replay:
         selftest(ctx, events)
 
 
@@ -162,6 +173,8 @@ def steps_stage(ctx, res, selftests=True):
         for w in sorted(f["what"]):
             if w == "Corner":
                 ctx.extra["corner_runs_not_compared"] = ctx.extra.get("corner_runs_not_compared", 0) + 1
+            elif w == "Unsupported":    # deploy statements are judged at the abstract level only
+                ctx.extra["step_runs_with_unmodelled_statement"] = ctx.extra.get("step_runs_with_unmodelled_statement", 0) + 1
             elif w == "VisibleState":
                 # abstract level: what the real objects show differs from the nested-transaction reference
                 ctx.violation({"kind": "VisibleState", "at": (steps[li].get("lb") or {}).get("k", steps[li]["event"])},
